@@ -103,7 +103,7 @@ class Dev:
     name, address = "name", "aa:bb"
 
 
-PAIRINGS = ["none", "cached-state", "no-cached-state"]
+PAIRINGS = ["none", "cached-state", "cached-state-without-state-number", "no-cached-state"]
 
 
 def detected_unit(M):
@@ -116,7 +116,9 @@ def detected_unit(M):
         p = None
         if which != "none":
             desc = M.mfr.HomeKitAdvertisement.from_cache("aa:bb", BA.ADV_ID_STR, 1, 5) if old_desc else None
-            p = BA.new_pairing(M, "uint8", which == "cached-state", desc)
+            p = BA.new_pairing(M, "uint8", which.startswith("cached-state"), desc)
+            if which == "cached-state-without-state-number":
+                p._accessories_state.state_num = None  # the entry written right after the database was fetched / an older cache file
         ctl = controller(M, p)
         mine, other = Fut(), Fut()
         ctl._ble_futures = {BA.ADV_ID_STR: [mine], "11:22:33:44:55:66": [other]}
@@ -177,7 +179,9 @@ def detected_notification_unit(M):
         p = None
         if which != "none":
             desc = M.mfr.HomeKitAdvertisement.from_cache("aa:bb", BA.ADV_ID_STR, 1, 5)
-            p = BA.new_pairing(M, "uint8", which == "cached-state", desc)
+            p = BA.new_pairing(M, "uint8", which.startswith("cached-state"), desc)
+            if which == "cached-state-without-state-number":
+                p._accessories_state.state_num = None
             p._broadcast_decryption_key = M.key.BroadcastDecryptionKey(kb)
         ctl = controller(M, p)
         data = rope(b"\x11\x00", BA.ADV_ID, payload)
